@@ -23,7 +23,7 @@ def inputs(ctx, tier):
     L = [
         ("multi4", dict(kind="basic", samples=4, chroms=2, len=900, single=False), dict(k=11, seg=100, mm=15)),
         ("multi6short", dict(kind="short", samples=3, chroms=2, len=600, single=False), dict(k=11, seg=80, mm=15)),
-        ("single9", dict(kind="basic", samples=3, chroms=3, len=700, single=True), dict(k=11, seg=100, mm=15)),
+        ("single9", dict(kind="basic", samples=3, chroms=3, len=700, single=True), dict(k=11, seg=100, mm=15, pack=4)),   # -l 4: boundaries at contigs 4 and 8
         ("single60", dict(kind="manysamples", samples=30, chroms=2, len=300, single=True), dict(k=9, seg=50, mm=15)),
         ("single120", dict(kind="manysamples", samples=40, chroms=3, len=200, single=True), dict(k=9, seg=50, mm=15)),
         ("multi_many", dict(kind="manysamples", samples=12, chroms=2, len=400, single=False), dict(k=9, seg=60, mm=15)),
@@ -33,6 +33,7 @@ def inputs(ctx, tier):
             ("single200", dict(kind="manysamples", samples=50, chroms=4, len=150, single=True), dict(k=9, seg=50, mm=15)),
             ("multi_rc", dict(kind="rc", samples=6, chroms=3, len=1200, single=False), dict(k=13, seg=150, mm=18)),
             ("single51", dict(kind="basic", samples=17, chroms=3, len=300, single=True), dict(k=9, seg=50, mm=15)),
+            ("single24_l2", dict(kind="basic", samples=8, chroms=3, len=300, single=True), dict(k=9, seg=50, mm=15, pack=2)),    # a token round every 2 contigs
         ]
     return L
 
@@ -77,7 +78,7 @@ def run_traces(ctx, want_sha_equal=True):
         agc = os.path.join(d, rid + ".agc")
         tr = os.path.join(d, rid + ".ndjson")
         _, out, _, _ = C.rvh(["drive-pipeline", "--files", ",".join(files), "--out", agc, "--k", str(p["k"]), "--seg", str(p["seg"]),
-                              "--mm", str(p["mm"]), "--threads", str(t), "--cap", str(cap), "--perturb", str(pert), "--trace", tr,
+                              "--mm", str(p["mm"]), "--pack", str(p.get("pack", 50)), "--threads", str(t), "--cap", str(cap), "--perturb", str(pert), "--trace", tr,
                               "--id", rid, "--stall-secs", "30"], timeout=1500)
         r = json.loads(out.strip().splitlines()[-1])
         r.update(id=rid, input=name, threads=t, cap=cap, perturb=pert, trace=tr, agc=agc)
